@@ -427,6 +427,17 @@ func stopDrive(args []string) error {
 			}
 			targets = append(targets, stopTarget{name: fd.name + "/File", errLast: errLast,
 				run: func(v func(gItem) bool) (int, bool) { return fd.file(path, v) }})
+			// the same input on a stream that fails part-way: stopping on (or just before) the error item
+			if in.WellFormed && len(in.Data) > 2 {
+				rr := newRand(int64(8900 + 100*fi + ii))
+				for j := 0; j < 3; j++ {
+					at, forever := 1+rr.Intn(len(in.Data)-1), j%2 == 0
+					targets = append(targets, stopTarget{name: fd.name + "/Reader-on-failing-stream", errLast: errLast,
+						run: func(v func(gItem) bool) (int, bool) {
+							return fd.reader(&faultReader{data: in.Data, at: at, rs: 7, forever: forever}, v)
+						}})
+				}
+			}
 		}
 		targets = append(targets, stopTarget{name: fd.name + "/File-missing", errLast: true,
 			run: func(v func(gItem) bool) (int, bool) { return fd.file(filepath.Join(tmp, "missing-"+fd.name), v) }})
